@@ -7,12 +7,14 @@ programs at the granularity of one discipline execution, the resolved variables 
 library's over-relaxation, the stop test on the squared normed residual for five scalings, a second
 execution with or without warm start, the exact rational solution and the properties NilExact / NilStop /
 APriori / APost / ChainEqualsMonolithic / Budget, all model-checked by TLC - with the rules of
-gauss_seidel.py as read (refuted: finding D0601) and repaired (hold; used as the oracle).
+gauss_seidel.py as they were before fix faa2efe ("asread": refuted by TLC, finding D0601, kept only as that
+refutation) and as they are now ("repaired": hold; the oracle of the conformance).
 
 Binding
  (1) code -> spec: MDAJacobi / MDAGaussSeidel / MDAChain[either] (no acceleration, relaxation w/2 in
      {1/2, 1, 3/2}, the five scalings, listing orders, tolerances 2^-t and 0, max_mda_iter, one or two
-     executions, warm start) run on harness disciplines that log every execution; MDATrace.tla demands
+     executions, warm start) and MDASequential of two of them (first MDA with its own looser tolerance
+     and max_mda_iter) run on harness disciplines that log every execution; MDATrace.tla demands
      that every logged input / output / returned value EQUALS the specification's (doubles are exact on
      the slice) and that the iteration count and convergence flag of every (inner) MDA are the
      specification's.  Every invariant of MDA.tla is evaluated in every state of every trace.
@@ -21,7 +23,10 @@ Binding
      returned values and the re-execution residuals of the harness disciplines go back to TLC
      (MDAReport.tla) as exact big dyadics and are judged against Exact and the bound of the
      specification; "reports a normed residual <= tolerance within max_mda_iter" is demanded of every
-     run (the failing combinations on the unchanged tree are the known findings D17, D0602, D0603).
+     run (the failing combinations are the known findings D17 and D0603; D0601 and D0602 are fixed).
+     Included: generic MDASequential([first MDA with its own tolerance 1e-2, tight second MDA]) judged with
+     the tolerance of the SEQUENCE, and MDAChain with inner_mda_settings given as a settings MODEL or a
+     dictionary, un-accelerated inner MDAs needing more than the default 20 iterations (tolerance 1e-12).
 """
 from __future__ import annotations
 
@@ -139,7 +144,7 @@ def record_trace(ck, tid, inst, cfg, dw):
     return {"id": tid, "inst": inst.json(), "cfg": cfg, "events": events, "_sig": sig}
 
 
-def trace_cfgs(rnd, inst, env, n, dw=()):
+def trace_cfgs(rnd, inst, env, n, dw=(), thorough=False):
     """n configurations inside the exactness envelope TLC printed for the instance (dw: the listing
     orders in which a Gauss-Seidel reads a weak coupling before it is produced - always visited, with
     several tolerances, so that the stop decisions on the resolved variables are exercised there)."""
@@ -148,7 +153,7 @@ def trace_cfgs(rnd, inst, env, n, dw=()):
     mm = int(env["GS"][1][0])
     if mm >= 1:
         for j, order in enumerate(sorted(dw)):
-            for t, scal in ((-1, "no"), (2, "no"), (4, "ncpl"))[:3 if j < 2 else 1]:
+            for t, scal in ((-1, "no"), (2, "no"), (4, "ncpl"))[:(3 if j < 2 else 1) if thorough else 1]:
                 out.append({"alg": "GS", "w": 2, "ord": list(order), "t": t, "maxit": mm, "scal": scal,
                             "warm": False, "runs": 1, "a1": "J", "t1": 1, "m1": 1})
     n += len(out)
@@ -410,11 +415,11 @@ def run(ck: Check):
         profiles, seeds = (22, 12, 21, 11, 222, 121, 112), range(1, 41)
         ex = dict(ws=(1, 2, 3), tols=(99, 2, 6), maxits=(2, 4), scals=("no", "init", "ncpl", "sub", "comp"),
                   warm=(False, True), nruns=2)
-        parts, selmod, n_traces, n_runs = 8, 48, 1500, 4000
+        parts, selmod, n_traces, n_runs = 8, 96, 1500, 4000
     else:
         profiles, seeds = (22, 12, 222), range(1, 17)
         ex = dict(ws=(1, 2), tols=(2, 6), maxits=(2,), scals=("no", "init", "comp"))
-        parts, selmod, n_traces, n_runs = 1, 32, 250, 380
+        parts, selmod, n_traces, n_runs = 1, 48, 200, 330
     seeds = list(seeds)
     base = dict(fams=("nil", "con"), profiles=profiles, seeds=seeds)
     spec = "SPECIFICATION Spec\nCHECK_DEADLOCK FALSE\n" + inv_lines()
@@ -436,9 +441,10 @@ def run(ck: Check):
     ck.extra["instances_by_family"] = {f: sum(1 for c in cases if c[0].fam == f) for f in ("nil", "con")}
     ck.extra["instances_with_several_groups"] = sum(1 for c in cases if c[2] > 1)
     ck.extra["instances_with_delayed_weak_orders"] = sum(1 for c in cases if c[3])
-    # the rules of gauss_seidel.py as read today do NOT satisfy the specification's own properties:
-    # TLC refutes APost / NilStop (finding D0601) - recorded, the conformance below uses the repaired rules
-    ra = ck.tlc("MDA", consts(**base, algs=("GS",), ws=(2,), tols=(2,), maxits=(2,), scals=("no",), rules="asread")
+    # the rules of gauss_seidel.py as they were before fix faa2efe do NOT satisfy the specification's own
+    # properties: TLC refutes APost / NilStop (D0601) - recorded; the conformance uses the repaired rules
+    ra = ck.tlc("MDA", consts(**dict(base, profiles=(222,), seeds=seeds[:16]), algs=("GS",), ws=(2,), tols=(2,),
+                              maxits=(2,), scals=("no",), rules="asread")
                 + spec, workers=4, timeout=170, expect_ok=False, count=False, coverage=False)
     ck.extra["asread_rules_refuted_invariant"] = ra.violated or "none"
     if not ra.violated:
@@ -451,7 +457,7 @@ def run(ck: Check):
     per = max(1, -(-n_traces // len(cases)))
     for case in cases:
         inst, env, _, dw, _ = case
-        for cfg in trace_cfgs(rnd, inst, env, per, dw):
+        for cfg in trace_cfgs(rnd, inst, env, per, dw, ck.thorough):
             t = record_trace(ck, len(traces) + 1, inst, cfg, dw)
             if t is not None:
                 traces.append(t)
